@@ -1,8 +1,58 @@
 from vlib.runner import Ob
-from vlib.props._packet import packet_obs
+from vlib.props._packet import packet_obs, PK
 from vlib.props._c02fmt import fmt_obs
+
+
+def asm_obs():
+    """multi-packet assembly: termination of the page in progress by the following headers (harness/h_c02asm.c).
+    NOT LISTED in obligations(): no verdict.  Measured: with vt.current != NULL every field of the page in progress is read through
+    `curr = vbi->vt.current; vtp = curr->page` - a pointer into the 220 KB decoder whose target CBMC's value sets do not resolve to one raw_page[]
+    element; vtp->function / flags / pgno then are non-constant for symex although the harness sets them to constants, so the dispatch
+    `switch (vtp->function)` explores every arm (convert_drcs, parse_mip, store_lop with the channel switch heuristic same_header() over the symbolic
+    header text ...): symex did not finish in 400 s (0.8 GB) with serial/erase/hit case-split on the grid and all control bits concrete; a
+    semantics-preserving patch of the roll_header test only moved the stall to convert_drcs.  The seeded change C02-serial-header-same-tens-units is
+    therefore NOT caught (class B).  A way forward: compile packet.c with a decoder whose raw_page[] is carved down to the two magazines involved, or
+    factor the termination loop into a unit that takes the two raw pages as parameters."""
+    kw = {k: v for k, v in PK.items() if k not in ("harness", "stubs")}
+    def g(m1, p1, m2, p2, p3, ser=1, era1=0, era2=0, hit2=1):
+        return dict(AM1=m1, AP1="0x%02x" % p1, AM2=m2, AP2="0x%02x" % p2, AP3="0x%02x" % p3, ASER1=ser, ASER2=ser, AERA1=era1, AERA2=era2, AHIT2=hit2)
+    quick = [g(1, 0x70, 2, 0x70, 0x71),              # serial, other magazine, same tens/units, H2's page cached
+             g(1, 0x70, 1, 0x71, 0x72, ser=0)]       # parallel, own magazine, next page
+    full = list(quick)
+    for pages in ((1, 0x70, 2, 0x70, 0x71), (1, 0x70, 2, 0x59, 0x71), (1, 0x70, 1, 0x71, 0x72), (1, 0x70, 1, 0x70, 0x71), (8, 0x99, 1, 0x99, 0x00), (2, 0x34, 8, 0x35, 0x33)):
+        for ser in (0, 1):
+            for era1, era2, hit2 in ((0, 0, 1), (0, 0, 0), (1, 0, 1), (0, 1, 0)):
+                x = g(*pages, ser=ser, era1=era1, era2=era2, hit2=hit2)
+                if x not in full:
+                    full.append(x)
+    return [Ob("asm_header_terminates", harness="h_c02asm.c", func="h_asm_terminate", unwind=50, vin_size=128,
+               desc="vbi_decode_teletext on TWO page headers following a page in progress (LOP, control bits incl. serial/parallel C11 and erase C4 symbolic): "
+                    "H2 of magazine M2/page P2 (grid: own or another magazine, same or different tens/units), sub-code and control bits symbolic, answered by "
+                    "the cache with a hit or a miss (symbolic); H3 of the page's own magazine with a different number.  After H3 - the latest point the "
+                    "property allows - the page has been handed to the cache exactly once and exactly one TTX_PAGE event carries its number (a repeat of its "
+                    "own number: at least once)",
+               encodes=["vbi_decode_teletext (case 0)", "store_lop", "lop_parity_check"],
+               bounds="magazines/page numbers of the three headers, C11 (serial) and C4 (erase) of the page in progress and of H2, cache hit/miss for H2 on the grid; page in progress: header row only; its header and H2's carry C7 (suppress header), "
+                      "so the channel switch heuristic of store_lop (which may swallow a page) is not entered",
+               outside="rows between the headers (ttx_rows, lop_parity_gate), the cache itself (C10), channel switch heuristic, more than two following headers",
+               stubs=["as h_packet.c (struct caption carved out, 8/30 + VPS stubs, empty CNI table) with a RECORDING cache stub: _vbi_cache_put_page logs the "
+                      "page number and returns a page, _vbi_cache_get_page returns the hit/miss chosen by the harness; vbi_send_event logs TTX_PAGE numbers"],
+               grid=full, quick_grid=quick, reach=["end"], timeout=600, mem_gb=6, **kw)]
+
+
+def cache_obs(tier, seed):
+    """'the transmitted page and subpage number ... a wildcard subpage fetch following a reception returns the subpage just received': decided on the REAL
+    cache by C10's SEQ-3 obligation (put, put, get with symbolic sub-codes incl. the wildcard against a reference map with the EN 300 706 A.1 sub-code
+    normalisation: 01..79 kept, clock codes, everything else one version); reused here unchanged (harness/h_c10.c, owned by C10)"""
+    from vlib.props import C10
+    out = []
+    for ob in C10.obligations(tier, seed):
+        if ob.name == "seq_put_put_get":
+            ob.name = "cache_put_put_get"
+            out.append(ob)
+    return out
 
 
 def obligations(tier, seed):
     p = packet_obs()
-    return [p[k] for k in ("pagelink", "x27_links", "lop_parity", "lop_parity_x26", "header")] + list(fmt_obs().values())
+    return [p[k] for k in ("pagelink", "x27_links", "lop_parity", "lop_parity_x26", "header")] + list(fmt_obs().values()) + cache_obs(tier, seed)
